@@ -537,6 +537,25 @@ pub fn run(tier: Tier, replay: Option<&str>) {
                             }
                         }
                     }
+                    if base == "fresh" && !biased {
+                        // a prior downlink whose answers did not fit the 15-byte budget, then requests of every kind: what
+                        // the overflow left behind must not reach the answers of a later downlink
+                        let over: Vec<Vec<u8>> = vec![vec![0x06; 6], vec![0x06; 15], vec![0x06, 0x06, 0x06, 0x06, 0x06, 0x08, 0x02, 0x06]];
+                        let mut mixed = vec![0x08, 0x03, 0x06];
+                        mixed.extend(cmds::link_adr(15, 15, 0xFFFF, 0, 1, false).bytes);
+                        let mixed = Cmd { name: "after-overflow-RXTimingSetupReq+DevStatusReq+LinkADRReq".into(), bytes: mixed };
+                        let js: Vec<&Cmd> = singles.iter().enumerate().filter(|(i, _)| i % if th { 11 } else { 97 } == 0).map(|x| x.1).chain(std::iter::once(&mixed)).collect();
+                        for p1 in &over {
+                            for c in &js {
+                                if c.bytes.len() <= 15 {
+                                    cases.push(mk(vec![p1.clone()], c, false, false));
+                                }
+                            }
+                            for c in budget.iter().step_by(if th { 1 } else { 7 }) {
+                                cases.push(mk(vec![p1.clone()], c, true, false));
+                            }
+                        }
+                    }
                     if samples.len() < 3 && !cases.is_empty() {
                         samples.push(serde_json::to_value(&cases[cases.len() / 2]).unwrap());
                     }
@@ -589,7 +608,7 @@ pub fn run(tier: Tier, replay: Option<&str>) {
         "samples": samples,
         "evaluations": ctx.evals(),
         "distinct_nontrivial": nontrivial.load(Ordering::Relaxed),
-        "rule": "each case is a history on a fresh real device: base state (fresh / CFList join / sparse mask / extra channels / high data rate), 0-2 prior command downlinks, the judged downlink (FOpts or port 0), then uplinks and an acknowledging downlink. Judged downlinks: the full value domain of LinkADRReq (DR x TXPower x ChMaskCntl x mask patterns x NbTrans x RFU bit), LinkADRReq blocks, RXParamSetupReq (all 256 DLSettings x frequency set), RXTimingSetupReq (all 256), NewChannelReq (index x frequency set x DrRange bytes), DlChannelReq, DevStatusReq (requests with repeated answers also with an FPort 0 uplink before the repeat); k x DevStatusReq followed by two further requests (answer budget at every position); streams of requests with repeated answers that fill 13 / 14 / 15 (exactly) / 16 bytes; Class C deliveries (between TX and RX1, and while idle in rxc_listen with the answers of the preceding Class A downlink still unsent); port-0 requests in sessions whose downlink counter is beyond 16 bits. non-trivial = judged stream contains at least one request",
+        "rule": "each case is a history on a fresh real device: base state (fresh / CFList join / sparse mask / extra channels / high data rate), 0-2 prior command downlinks, the judged downlink (FOpts or port 0), then uplinks and an acknowledging downlink. Judged downlinks: the full value domain of LinkADRReq (DR x TXPower x ChMaskCntl x mask patterns x NbTrans x RFU bit), LinkADRReq blocks, RXParamSetupReq (all 256 DLSettings x frequency set), RXTimingSetupReq (all 256), NewChannelReq (index x frequency set x DrRange bytes), DlChannelReq, DevStatusReq (requests with repeated answers also with an FPort 0 uplink before the repeat); k x DevStatusReq followed by two further requests (answer budget at every position); streams of requests with repeated answers that fill 13 / 14 / 15 (exactly) / 16 bytes; the same kinds of downlink after a prior downlink whose answers overflowed the budget; Class C deliveries (between TX and RX1, and while idle in rxc_listen with the answers of the preceding Class A downlink still unsent); port-0 requests in sessions whose downlink counter is beyond 16 bits. non-trivial = judged stream contains at least one request",
         "regions": regions,
         "exhaustive": true,
     });
